@@ -40,5 +40,17 @@ def reproduce_finding(f, ctx):
     return g(f, ctx)
 
 
+def replay_fails(pid, payload, impl_lines, model_lines):
+    """for replay files written by a hook: does the (agreeing) observation still violate the property?"""
+    g = getattr(MODS[pid], "replay_fails", None)
+    return bool(g(payload, impl_lines, model_lines)) if g else False
+
+
+def property_fails(pid):
+    """optional: property_fails(impl_lines, model_lines) -> bool, for streams that carry an implementation-detail trace (calls made
+    to an external library) next to the property's observable: True when the observable itself differs"""
+    return getattr(MODS[pid], "property_fails", None)
+
+
 def hook(pid, name):
     return getattr(MODS[pid], name)
